@@ -24,7 +24,7 @@ class C02(Prop):
         return False
 
     def generate(self, rng, tier):
-        n = 700 if tier == "quick" else 15000
+        n = 1200 if tier == "quick" else 15000
         out = []
         for _ in range(n):
             t = X.gen_tree(rng, rng.choice([2, 3, 4]), root="dict")
@@ -42,6 +42,28 @@ class C02(Prop):
                 cur = X.ref_set(cur, path, v)
             if ops:
                 out.append({"stream": "ops", "tag": "hist:%d" % len(ops), "input": {"tree": t, "mode": mode, "ops": ops, "paths": paths}})
+        # the same xpath string written twice with an ancestor of its slot replaced in between (a container that still has the
+        # path): the second write lands in the tree as it is now, not in the detached old parent
+        for _ in range(80 if tier == "quick" else 2000):
+            t = X.gen_tree(rng, rng.choice([3, 4]), root="dict")
+            deep = [(p, v) for p, v in X.node_paths(t) if len(p) >= 2]
+            if not deep:
+                continue
+            path, _v = rng.choice(deep)
+            xp = X.render(t, path, rng)
+            cut = rng.randint(1, len(path) - 1)
+            anc = path[:cut]
+            cur = copy.deepcopy(t)
+            ops, paths = [], []
+            v1 = gen_value(rng)
+            ops.append(["set", xp, v1]); paths.append(list(path)); cur = X.ref_set(cur, path, v1)
+            repl = copy.deepcopy(X.plain_get(cur, anc))          # same shape, fresh object
+            ops.append(["set", X.render(cur, anc, rng), repl] + (["plain"] if rng.random() < 0.4 else [])); paths.append(list(anc))
+            cur = X.ref_set(cur, anc, repl)
+            v2 = gen_value(rng)
+            ops.append(["set", xp, v2]); paths.append(list(path)); cur = X.ref_set(cur, path, v2)
+            out.append({"stream": "ops", "tag": "rewrite-after-replace", "input": {"tree": t, "mode": rng.choice(["convert", "convert", "wrap", "json"]),
+                                                                                   "ops": ops, "paths": paths}})
         # a dictionary that also holds a literal key spelled like the path of an existing nested node: the assignment
         # replaces the nested node (what lookup of that string addresses), never the literal entry
         for _ in range(60 if tier == "quick" else 1500):
